@@ -1009,7 +1009,19 @@ caf_write_strings (SF_PRIVATE * psf, int location)
 
 static int
 caf_set_chunk (SF_PRIVATE *psf, const SF_CHUNK_INFO * chunk_info)
-{	return psf_save_write_chunk (&psf->wchunks, chunk_info) ;
+{	/*
+	** Chunks this file writes and parses itself : a second copy from the application
+	** would be taken for the real one when the file is read.
+	*/
+	static const uint32_t reserved [] =
+	{	desc_MARKER, data_MARKER, pakt_MARKER, kuki_MARKER, peak_MARKER, chan_MARKER,
+		info_MARKER
+		} ;
+
+	if (psf_chunk_id_is_one_of (chunk_info, reserved, ARRAY_LEN (reserved)))
+		return SFE_BAD_CHUNK_MARKER ;
+
+	return psf_save_write_chunk (&psf->wchunks, chunk_info) ;
 } /* caf_set_chunk */
 
 static SF_CHUNK_ITERATOR *
